@@ -11,6 +11,12 @@ class StageErr(Exception):
         self.code = code
 
 
+class TwoArgErr(Exception):
+    """pickles, but cannot be re-created from its args (a common pattern)"""
+    def __init__(self, code, detail):
+        super().__init__(f'{code}: {detail}')
+
+
 class BW(Worker):
     def __init__(self, *, nst=0, **kw):
         super().__init__(**kw)
@@ -21,6 +27,8 @@ class BW(Worker):
         pad = x[3] if len(x) > 3 else 0
         if dur:
             time.sleep(dur / 1000)
+        if fail == 6:
+            raise TwoArgErr(fail, 'cannot be rebuilt')
         if fail == 8:
             raise StopIteration(fail)            # like any other exception of the worker
         if fail == 9:
